@@ -12,7 +12,43 @@ class ExprGen:
         self.next_leaf = 1
 
     # types: list of (ty, const) with ty in O (Obj), T (trackable ref), I (long)
-    def gen(self, types, depth, need_value):
+    def gen_ref(self, types, depth):
+        """an expression returning (by reference) the object it receives first: a LeafRef under
+        adaptors that pass the result through (hide, bind, track_object)"""
+        r = self.r
+        n = len(types)
+        opts = []
+        if types and types[0][0] in "OT":
+            opts += ["leafref", "leafref"]
+        if depth < self.max_depth:
+            opts += ["to", "bindn"]
+            if n >= 2:
+                opts += ["hiden"]
+            if n >= 1:
+                opts += ["bind0"]
+        if not opts:
+            return None
+        k = r.choice(opts)
+        if k == "leafref":
+            i = self.next_leaf
+            self.next_leaf += 1
+            return ("leafref", i)
+        if k == "to":
+            f = self.gen_ref(types, depth + 1)
+            return ("to", f, [r.randrange(K)]) if f else None
+        if k == "bindn":
+            f = self.gen_ref(types + [("O", False)], depth + 1)
+            return ("bind", -1, f, [("v", r.randint(10, 99))]) if f else None
+        if k == "hiden":
+            f = self.gen_ref(types[:-1], depth + 1)
+            return ("hide", -1, f) if f else None
+        if k == "bind0":
+            t = r.randrange(K)
+            f = self.gen_ref([("T", False)] + types, depth + 1)
+            return ("bind", 0, f, [("r", t)]) if f else None
+        return None
+
+    def gen(self, types, depth, need_value, allow_throw=True):
         """returns (term, returns_value)"""
         r = self.r
         n = len(types)
@@ -31,7 +67,7 @@ class ExprGen:
         if k == "leaf":
             i = self.next_leaf
             self.next_leaf += 1
-            return ("leaf", i, 1 if r.random() < 0.08 else 0), True
+            return ("leaf", i, 1 if (allow_throw and r.random() < 0.08) else 0), True
         if k == "mem":
             kinds = [r.choice("vc") if c else r.choice("vrc") for _, c in types]
             return ("mem", r.randrange(K), kinds), True
@@ -51,49 +87,78 @@ class ExprGen:
                     btypes.append(("T", True))
             if k == "bind":
                 i = r.randint(0, n)
-                f, rv = self.gen(types[:i] + btypes + types[i:], depth + 1, need_value)
+                f, rv = self.gen(types[:i] + btypes + types[i:], depth + 1, need_value, allow_throw)
                 return ("bind", i, f, bounds), rv
-            f, rv = self.gen(types + btypes, depth + 1, need_value)
+            f, rv = self.gen(types + btypes, depth + 1, need_value, allow_throw)
             return ("bind", -1, f, bounds), rv
         if k == "hide":
             i = r.randrange(n)
-            f, rv = self.gen(types[:i] + types[i + 1:], depth + 1, need_value)
+            f, rv = self.gen(types[:i] + types[i + 1:], depth + 1, need_value, allow_throw)
             return ("hide", i, f), rv
         if k == "hiden":
-            f, rv = self.gen(types[:-1], depth + 1, need_value)
+            f, rv = self.gen(types[:-1], depth + 1, need_value, allow_throw)
             return ("hide", -1, f), rv
         if k == "retype":
-            f, rv = self.gen(types, depth + 1, need_value)
+            f, rv = self.gen(types, depth + 1, need_value, allow_throw)
             return ("retype", f, list(types), rv), rv
         if k == "slot":
-            f, rv = self.gen(types, depth + 1, need_value)
+            f, rv = self.gen(types, depth + 1, need_value, allow_throw)
             return ("slot", f, list(types), rv), rv
         if k == "rr":
-            f, _ = self.gen(types, depth + 1, True)
+            f, _ = self.gen(types, depth + 1, True, allow_throw)
             return ("rr", f), True
         if k == "hr":
-            f, _ = self.gen(types, depth + 1, False)
+            f, _ = self.gen(types, depth + 1, False, allow_throw)
             return ("hr", f), False
         if k == "br":
-            f, _ = self.gen(types, depth + 1, False)
+            f, _ = self.gen(types, depth + 1, False, allow_throw)
             return ("br", f, r.randint(100, 999)), True
         if k == "c1":
-            g, _ = self.gen(types, depth + 1, True)
-            s, rv = self.gen([("I", False)], depth + 1, need_value)
+            g = self.gen_ref(types, depth + 1) if r.random() < 0.35 else None
+            if g is not None:
+                s, rv = self.gen([self.ref_type(g, types)], depth + 1, need_value, allow_throw)
+                return ("c1", s, g), rv
+            g, _ = self.gen(types, depth + 1, True, allow_throw)
+            s, rv = self.gen([("I", False)], depth + 1, need_value, allow_throw)
             return ("c1", s, g), rv
         if k == "c2":
-            g1, _ = self.gen(types, depth + 1, True)
-            g2, _ = self.gen(types, depth + 1, True)
-            s, rv = self.gen([("I", False), ("I", False)], depth + 1, need_value)
+            g1 = self.gen_ref(types, depth + 1) if r.random() < 0.35 else None
+            g2 = self.gen_ref(types, depth + 1) if r.random() < 0.35 else None
+            t1 = self.ref_type(g1, types) if g1 is not None else ("I", False)
+            t2 = self.ref_type(g2, types) if g2 is not None else ("I", False)
+            if g1 is None:
+                g1, _ = self.gen(types, depth + 1, True, False)   # evaluation order of the two getters is unspecified:
+            if g2 is None:
+                g2, _ = self.gen(types, depth + 1, True, False)   # a throwing getter would make the log ambiguous
+            s, rv = self.gen([t1, t2], depth + 1, need_value, allow_throw)
             return ("c2", s, g1, g2), rv
         if k == "ec":
-            f, _ = self.gen(types, depth + 1, True)
+            f, _ = self.gen(types, depth + 1, True, allow_throw)
             return ("ec", f, r.randint(1000, 1999)), True
         if k == "to":
             ts = [r.randrange(K) for _ in range(r.choice([1, 1, 2, 3]))]
-            f, rv = self.gen(types, depth + 1, need_value)
+            f, rv = self.gen(types, depth + 1, need_value, allow_throw)
             return ("to", f, ts), rv
         raise AssertionError(k)
+
+
+def _ref_type(g, types):
+    """type (O or T) of the object a gen_ref expression returns when called with `types`"""
+    k = g[0]
+    if k == "leafref":
+        return types[0]
+    if k == "to":
+        return _ref_type(g[1], types)
+    if k == "hide":
+        return _ref_type(g[2], types[:-1])
+    if k == "bind" and g[1] < 0:
+        return _ref_type(g[2], types + [("O", False)])
+    if k == "bind":
+        return _ref_type(g[2], [("T", False)] + types)
+    raise AssertionError(k)
+
+
+ExprGen.ref_type = staticmethod(_ref_type)
 
 
 def sig_of(types):
@@ -112,6 +177,8 @@ def to_text(t):
     k = t[0]
     if k == "leaf":
         return "leaf %d %d" % (t[1], t[2])
+    if k == "leafref":
+        return "leafref %d" % t[1]
     if k == "mem":
         return "mem %d %d %d %s" % (t[1], 500 + t[1], len(t[2]), " ".join(t[2]))
     if k == "bind":
@@ -143,6 +210,8 @@ def to_cpp(t):
     k = t[0]
     if k == "leaf":
         return "Leaf{%d, %s}" % (t[1], "true" if t[2] else "false")
+    if k == "leafref":
+        return "LeafRef{%d}" % t[1]
     if k == "mem":
         return "sigc::mem_fun(*g_tr[%d], &Tr::m%d%s)" % (t[1], len(t[2]), "".join(t[2]))
     if k == "bind":
@@ -179,6 +248,17 @@ def has_compose2(t):
     if t[0] == "c2":
         return True
     return any(has_compose2(x) for x in t[1:] if isinstance(x, tuple))
+
+
+def rvalue_ok(t):
+    """can the expression be called with temporaries? (no non-const lvalue reference parameter on the path)"""
+    if t[0] == "mem" and "r" in t[2]:
+        return False
+    if t[0] == "leafref":
+        return False
+    if t[0] in ("slot", "retype") and any(ty == "O" and not c for ty, c in t[2]):
+        return False
+    return all(rvalue_ok(x) for x in t[1:] if isinstance(x, tuple))
 
 
 def depth_of(t):
@@ -236,6 +316,9 @@ class Case:
         L.append("    { auto f = %s; g_log.clear(); printf(\" direct=\"); %s }" % (expr, call("f")))
         L.append("    { sigc::slot<%s(%s)> s = %s; g_log.clear(); printf(\" slot=\"); %s }" % (R, self.top_sig(), expr, call("s")))
         L.append("    { sigc::signal<%s(%s)> sg; sg.connect(%s); g_log.clear(); printf(\" signal=\"); %s }" % (R, self.top_sig(), expr, call("sg.emit")))
+        if n and rvalue_ok(self.term):
+            targs = ", ".join("Obj(%d)" % v for v in self.vals)
+            L.append("    { auto f = %s; g_log.clear(); printf(\" rvalue=\"); %s }" % (expr, call("f").replace("(%s)" % args, "(%s)" % targs)))
         L.append("    long c0 = Obj::copies; { sigc::slot<%s(%s)> s = %s; c0 = Obj::copies; g_log.clear(); try { s(%s); } catch (LeafThrow&) {} }" % (R, self.top_sig(), expr, args))
         L.append("    printf(\" copies=%ld\", Obj::copies - c0); }")
         L.append("  for (auto t : g_tr) delete t; g_tr.clear(); g_orig.clear();")
